@@ -4,8 +4,21 @@ package minify
 
 import (
 	"io"
+	"os/exec"
 	"regexp"
 )
+
+// external commands: natively a real `sh -c "printf <id>"`; in the engine (*exec.Cmd).Run is modelled: it writes the
+// last byte of its last argument to Stdout (what that command does).
+func verifCmd(id int) *exec.Cmd {
+	return &exec.Cmd{Path: "/bin/sh", Args: []string{"/bin/sh", "-c", "printf " + string(rune('0'+id))}}
+}
+
+func vstub_os_exec_Cmd_Run(c *exec.Cmd) error {
+	a := c.Args[len(c.Args)-1]
+	_, err := c.Stdout.Write([]byte{a[len(a)-1]})
+	return err
+}
 
 // Harness for C15 (media type dispatch). The registry is driven through its public API with a symbolic
 // registration history; regular expressions are modelled (engine) / real (native) for two overlapping patterns.
@@ -180,10 +193,12 @@ func verifDispatchCore(mtb []byte, maxReg int) {
 	for id := 0; id < k; id++ {
 		kind := vChoice("kind"+string(rune('0'+id)), 5)
 		if kind < 3 {
-			if id%2 == 0 {
+			if id%3 == 0 {
 				m.AddFunc(verifLiteralKeys[kind], verifRecorder(id))
-			} else {
+			} else if id%3 == 1 {
 				m.Add(verifLiteralKeys[kind], verifMinifier{verifRecorder(id)})
+			} else {
+				m.AddCmd(verifLiteralKeys[kind], verifCmd(id))
 			}
 			litID[verifLiteralKeys[kind]] = id
 		} else {
@@ -191,10 +206,12 @@ func verifDispatchCore(mtb []byte, maxReg int) {
 			if kind == 4 {
 				re, src = verifP1, verifSrcP1
 			}
-			if id%2 == 0 {
+			if id%3 == 0 {
 				m.AddFuncRegexp(re, verifRecorder(id))
-			} else {
+			} else if id%3 == 1 {
 				m.AddRegexp(re, verifMinifier{verifRecorder(id)})
+			} else {
+				m.AddCmdRegexp(re, verifCmd(id))
 			}
 			patSrc = append(patSrc, src)
 			patID = append(patID, id)
@@ -226,7 +243,14 @@ func verifDispatchCore(mtb []byte, maxReg int) {
 		vAssert(len(w.buf) == 0 && w.calls == 0 && verifCalledN == 0, "no minifier: nothing written")
 	} else {
 		vAssert(err == nil, "served without error")
-		vAssert(verifCalledN == 1 && verifCalledID == want, "served by the literal registration, else the first-registered matching pattern")
+		vAssert(len(w.buf) == 1 && w.buf[0] == '0'+byte(want), "served by the literal registration, else the first-registered matching pattern")
+		if want%3 == 2 {
+			// served by an external command: no call into the recorders, parameters are not passed on
+			vAssert(verifCalledN == 0, "command registration: no other minifier runs")
+			keys = nil
+		} else {
+			vAssert(verifCalledN == 1 && verifCalledID == want, "served by the literal registration, else the first-registered matching pattern")
+		}
 		// parameters: exactly the key/value pairs after the first ';' (later duplicates win)
 		distinct := 0
 		for i := range keys {
@@ -251,9 +275,9 @@ func verifDispatchCore(mtb []byte, maxReg int) {
 	} else {
 		vAssert(fn != nil, "Match: finds the minifier")
 		vAssert(name == wantName, "Match: reports the literal type or the pattern")
-		verifCalledID = -1
-		fn(m, &vWriter{}, &vReader{b: []byte("in")}, nil)
-		vAssert(verifCalledID == want, "Match: returns the minifier Minify uses")
+		w2 := &vWriter{}
+		fn(m, w2, &vReader{b: []byte("in")}, nil)
+		vAssert(len(w2.buf) == 1 && w2.buf[0] == '0'+byte(want), "Match: returns the minifier Minify uses")
 	}
 	vReach("end")
 }
